@@ -40,7 +40,8 @@ fn gen(rng: &mut Rng, tier: Tier) -> Value {
 fn resolved_of(m: &MapSpec) -> Resolved {
   Resolved::from_parts(
     &m.segs,
-    m.sources.clone(),
+    // resolved names: sourceRoot applied
+    m.sources.iter().map(|s| crate::model::attr::apply_source_root(m.source_root.as_deref(), s)).collect(),
     (0..m.sources.len()).map(|i| m.contents.get(i).cloned()).collect(),
     m.names.clone(),
   )
@@ -163,7 +164,13 @@ fn check(case: &Value, obs: &mut Obs) {
   let src = build_box(&spec);
   let outer = resolved_of(outer_m);
   let inner = resolved_of(inner_m);
-  let k = outer_m.sources.iter().position(|s| s == name);
+  let k = outer_m
+    .sources
+    .iter()
+    .position(|s| crate::model::attr::apply_source_root(outer_m.source_root.as_deref(), s) == *name);
+  if outer_m.source_root.as_deref().is_some_and(|r| !r.is_empty()) || inner_m.source_root.as_deref().is_some_and(|r| !r.is_empty()) {
+    obs.class("source_root_on_outer_or_inner_map");
+  }
   // the text of the inner source: supplied original, else outer sourcesContent
   let inner_text: Option<String> = original
     .clone()
